@@ -33,14 +33,22 @@ def fams(tier):
     # "nodir": the cache directory itself does not exist yet; the values are staged outside it, so
     # every writer's first publication fails with ENOENT and goes through the mkdir-and-retry path
     nodir_names = ("put,get|put,get", "put,get|set,get", "set,get|set,get", "touch,get|put")
+    # "present-empty": the key holds a zero-length value - a value like any other: ensure and put leave it alone
+    empty_names = ("ensure,get|set", "put,get|put,get", "touch,get|put", "ensure,get|get,get")
+    progs.append(("ensure,get|get,get", [[e(1), g], [g, g]]))
+    present_empty = base + [G.plant(kp, "empty")]
     for name, parts in progs:
-        for pre, setup in (("absent", base), ("present", present), ("nodir", list(cfg))):
+        for pre, setup in (("absent", base), ("present", present), ("nodir", list(cfg)), ("present-empty", present_empty)):
             if pre == "present" and name.startswith("ensure|"):
                 continue
             if pre == "nodir" and name not in nodir_names:
                 continue
+            if pre == "present-empty" and name not in empty_names:
+                continue
+            if pre not in ("present-empty", "present") and name == "ensure,get|get,get":
+                continue
             out.append({"name": "plain:%s/%s" % (name, pre), "kind": "plain", "w": w, "cfg": cfg, "setup": setup, "parts": parts, "fire": None,
-                        "values": {K.fnv_show(v) for v in list(V.values()) + ["V0V0V0"]}, "initial": "V0V0V0" if pre == "present" else None,
+                        "values": {K.fnv_show(v) for v in list(V.values()) + ["V0V0V0", "empty"]}, "initial": "V0V0V0" if pre == "present" else ("empty" if pre == "present-empty" else None),
                         "opvals": V})
     return out
 
